@@ -660,6 +660,12 @@ def cache_oracles(ctx, prop):
     suppressed = 0
     for c in ctx.cases.get("cache", []):
         toks = ctx.rust["cache"].get(c.id)
+        if c.kind == "B":
+            # the scripted scenario on a cache of more than 4 GiB (judged inside the harness)
+            r = first(toks or [], "x_bigcache")
+            if prop == "C06" and r != "ok":
+                v.append(([c.id], "cache of 2^32 + 4096 bytes filled past the 32-bit range: %s (fill<k> / insert_beyond_4g / get_beyond_4g / get<k> / len_full / wrap_*)" % r))
+            continue
         if toks is None:
             v.append(([c.id], "no output for this history (process aborted)"))
             continue
